@@ -112,6 +112,7 @@ class Proc(object):
         self.readers = []        # live SimReader objects
         self.max_ops = spec.get('max_ops', 20000)
         self.nofile = spec.get('nofile', 1024)      # RLIMIT_NOFILE of the simulated process (0, 1, 2 are taken)
+        self.locale_enc = spec.get('locale_encoding')   # encoding of the process's locale for text files opened without one (None: UTF-8)
         self.exit = None
         self.exc = None
         self.exc_tb = None
@@ -1221,6 +1222,10 @@ def w_builtin_open(file, mode='r', buffering=-1, encoding=None, errors=None,
         raise HarnessError('open() with opener is not simulated')
     binary = 'b' in mode
     plus = '+' in mode
+    if not binary and encoding is None:
+        # a text file opened without an encoding gets the encoding of the simulated process's locale (spec['locale_encoding'];
+        # UTF-8 unless the case says otherwise)
+        encoding = getattr(K.cur, 'locale_enc', None)
     base = [c for c in mode if c in 'rwax']
     if len(base) != 1:
         raise ValueError('invalid mode: %r' % mode)
